@@ -1,2 +1,72 @@
-import Pakhi.Model.Interp
-import Pakhi.Model.Parser
+/-
+  C09 — numbers keep their value across literal, print and conversion.
+
+  The decimal↔binary conversions themselves are Rust's `FromStr`/`Display` for `f64`; the model
+  implements them exactly (`Num.parseF64`, `Num.display`) and the C09 check validates those two
+  functions against the Rust standard library on every run.  What is proved here is everything
+  around them: the literal scanner feeds *exactly* the ASCII transliteration of the literal to
+  `parseF64` (so every digit counts: `১.০৫` is `parseF64 "1.05"`), the three digit tables are
+  mutually inverse, and print → read is the identity whenever the two library functions satisfy
+  their documented round-trip contract (hypothesis `hRT`, checked per value by the C09 check).
+-/
+import Pakhi.Lemmas.Digits
+
+namespace Pakhi
+namespace C09
+
+/-- the Bangla→ASCII and ASCII→Bangla digit tables are mutually inverse bijections on digits -/
+theorem digit_maps_inverse :
+    (∀ c ∈ bnDigits, enToBn (bnToEn c) = c) ∧ (∀ c ∈ enDigits, bnToEn (enToBn c) = c) ∧
+    (∀ d, d < 10 → bnDigitVal? (bnDigits.getD d ' ') = some d ∧ bnToEn (bnDigits.getD d ' ') = Num.digitChar d) :=
+  ⟨digits_bn_en_inverse, digits_en_bn_inverse, digit_val_table⟩
+
+/-- the lexer's digit table yields digit values only -/
+theorem digit_value_bound (c : Char) (d : Nat) (h : bnDigitVal? c = some d) : d < 10 := bnDigitVal_lt c d h
+
+/-- `literal_text_faithful`: for every literal `[-]d⁺[.d*]` (any number of digits, any split, leading and
+    trailing zeros) followed by anything that cannot continue a number, the tokenizer's number scanner
+    returns `parseF64` of the ASCII transliteration and consumes exactly the literal. -/
+theorem literal_text_faithful (line : Nat) (file : Str) (neg : Bool) (ip fp : List Nat) (dot : Bool) (rest : Str)
+    (hip : ip ≠ []) (hi : ∀ d ∈ ip, d < 10) (hf : ∀ d ∈ fp, d < 10) (hfp : dot = false → fp = [])
+    (hstop : ∀ c, rest.head? = some c → (c == '.') = false ∧ isNumeric c = false) :
+    let lit : Str := (if neg then ['-'] else []) ++ bnOf ip ++ (if dot then '.' :: bnOf fp else [])
+    let ascii : Str := (if neg then ['-'] else []) ++ asciiOf ip ++ (if dot then '.' :: asciiOf fp else [])
+    consumeNum (lit ++ rest) line file =
+      (match Num.parseF64 ascii with
+       | some b => .ok (b, lit.length)
+       | none => mkErr .syntax line file "number-format") :=
+  consumeNum_literal line file neg ip fp dot rest hip hi hf hfp hstop
+
+/-- printing a finite number and reading the text back with `_সংখ্যা` gives the same number, provided
+    Rust's `Display`/`FromStr` round-trip holds for this value (`hRT`) -/
+theorem print_read_roundtrip (x : Num.Bits) (t : Str) (hfin : Num.isFinite x = true)
+    (hRT : Num.parseF64 (Num.display x) = some x) (ht : toBnNum? x = some t) :
+    bnStringToNum? t = some x := Pakhi.print_read_roundtrip x t hfin hRT ht
+
+/-- `_স্ট্রিং(x)` yields the same text as printing `x` -/
+theorem toString_is_print_text (x : Num.Bits) (t : Str) (ht : toBnNum? x = some t) : numToBnString x = t :=
+  toString_eq_print x t ht
+
+/-- `_সংখ্যা` rejects text that does not denote a finite number -/
+theorem toNum_rejects (s : St) (t : Str) (h : bnStringToNum? t = none) :
+    ∃ tag, callB .toNum [.str t] s = .inr tag := by
+  simp [callB, h]
+
+/-- `_সংখ্যা` of text whose ASCII form `parseF64` rejects, or maps to ±∞ / NaN, is rejected -/
+theorem bnStringToNum_none_iff (t : Str) :
+    bnStringToNum? t = none ↔
+      (Num.parseF64 (t.map bnToEn) = none ∨ ∃ b, Num.parseF64 (t.map bnToEn) = some b ∧ Num.isFinite b = false) := by
+  unfold bnStringToNum?
+  cases h : Num.parseF64 (t.map bnToEn) with
+  | none => simp
+  | some b => by_cases hb : Num.isFinite b = true <;> simp [hb]
+
+/-- non-vacuity: the hypotheses of `literal_text_faithful` are met by `২.২৮` followed by `;` -/
+example : (bnOf [2] ++ '.' :: bnOf [2, 8]) = ['২', '.', '২', '৮'] ∧
+    (∀ c, (";".toList).head? = some c → (c == '.') = false ∧ isNumeric c = false) := by
+  constructor
+  · decide
+  · intro c h; simp at h; subst h; decide
+
+end C09
+end Pakhi
